@@ -14,6 +14,14 @@ Record case := mkCase {
   c_sch : schema; c_heap : heap; c_ops : list (op * obs);
   c_final : list (oid * list (fname * val)) }.
 
+(* Long paths are written run-length encoded in the case files (a string literal of ten thousand characters
+   costs seconds to parse): [(n1, segs1); (n2, segs2); ...] spells segs1 n1 times, then segs2 n2 times, ...,
+   joined with ".".  The harness decodes its own encoding and compares with the path it ran before writing it. *)
+Fixpoint rep_app {A} (n : nat) (l acc : list A) : list A :=
+  match n with O => acc | S k => l ++ rep_app k l acc end.
+Definition rle (bs : list (N * list string)) : string :=
+  join_dot (fold_right (fun b acc => rep_app (N.to_nat (fst b)) (snd b) acc) [] bs).
+
 Definition obs_eqb (a b : obs) : bool :=
   match a, b with
   | ObVal v, ObVal w => val_eqb v w
